@@ -690,6 +690,10 @@ impl<'a> Gen<'a> {
                         }
                     }
                 }
+                // a load that must be REJECTED after a partial import: rollback of the merge
+                "conflict" => {
+                    self.conflict_load(m)?;
+                }
                 "dup" => {
                     if self.ex.models.len() < 3 && self.ex.files.len() < 9 {
                         self.push(Op::Duplicate(m))?;
@@ -775,6 +779,44 @@ impl<'a> Gen<'a> {
         Some(())
     }
 
+    /// the text of a file of model m that contains a SYSTEM-TIMING with a TIMING-RESOURCE, changed so that (a) it brings
+    /// a package the model does not have (imported first) and (b) the TIMING-RESOURCE has another name (SYSTEM-TIMING is
+    /// not splittable: InvalidFileMerge).  load_buffer must reject it and roll the import back.
+    fn conflict_load(&mut self, m: usize) -> Option<()> {
+        let mf = self.model_files(m);
+        if mf.is_empty() || self.ex.files.len() >= 12 {
+            return Some(());
+        }
+        // make sure there is a SYSTEM-TIMING / TIMING-RESOURCE pair in the model
+        if !self.ex.models[m].elements_dfs().any(|(_, e)| e.element_name() == ElementName::TimingResource) {
+            let mm = self.ex.models[m].clone();
+            let els = self.pick_where(|e| Self::live(e) && e.element_name() == ElementName::Elements && e.model().ok() == Some(mm.clone()))?;
+            let st = ok_handle(&self.push(Op::CreateNamed(els, self.el("SYSTEM-TIMING"), b"st".to_vec()))?)?;
+            self.push(Op::CreateNamed(st, self.el("TIMING-RESOURCE"), b"tr0".to_vec()))?;
+        }
+        for f in mf {
+            let Ok(t) = self.ex.files[f].serialize() else { continue };
+            let Some(p) = t.find("<TIMING-RESOURCE>") else { continue };
+            let Some(q) = t[p..].find("</SHORT-NAME>") else { continue };
+            let mut text = String::new();
+            text.push_str(&t[..p + q]);
+            text.push_str("_other");
+            text.push_str(&t[p + q..]);
+            let Some(last) = text.rfind("</AR-PACKAGES>") else { continue };
+            let extra = format!(
+                "<AR-PACKAGE><SHORT-NAME>only_in_rejected_{}</SHORT-NAME><ELEMENTS><SYSTEM><SHORT-NAME>sys</SHORT-NAME></SYSTEM></ELEMENTS></AR-PACKAGE>",
+                self.ex.files.len()
+            );
+            text.insert_str(last, &extra);
+            let name = format!("rej{}.arxml", self.ex.files.len());
+            let strict = self.rng.below(2) == 0;
+            self.bump("shape_conflict_load");
+            self.push(Op::Load(m, text.into_bytes(), name.into_bytes(), strict))?;
+            break;
+        }
+        Some(())
+    }
+
     fn run(&mut self, k: usize, tier: &str) {
         let nfiles = 1 + (k % 4);
         let same_version = k % 3 != 2;
@@ -800,6 +842,13 @@ impl<'a> Gen<'a> {
                     if self.push(Op::RemoveFromFile(hk, f)).is_none() { return; }
                 }
             }
+        }
+        let with_conflict = self.enable.iter().any(|e| e == "conflict") && k % 8 == 3;
+        if with_conflict {
+            let m = self.rng.below(self.ex.models.len() as u64) as usize;
+            if self.conflict_load(m).is_none() && self.outcome.is_some() { return; }
+            // work goes on after the rejected load: a later step must not be confused by what it left
+            if self.grow(0).is_none() && self.outcome.is_some() { return; }
         }
         let len = if tier == "thorough" { 30 + self.rng.below(50) } else { 15 + self.rng.below(30) };
         let mut tries = 0;
